@@ -124,6 +124,7 @@ func (x *searcher) lineChunkings(r *vlib.Run, maxLen int) {
 
 func schedMain(r *vlib.Run, x *searcher) {
 	controlled = true
+	noDeep = true
 	type scen struct {
 		name  string
 		v     Vars
